@@ -19,7 +19,8 @@ OPS    == {";", "&", "&&", "||", "|", ";;", "(", ")", "\n"}
 REDIR  == {"<", ">", ">>", "2>"}
 ARITH  == {"((1))"}
 ASSIGN == {"x=1"}
-NAMES  == {"a", "f"} \cup (RES \ {"!", "{", "}"})     \* spellings that satisfy XBD Name
+SPBUILTIN == {"break", "continue", "eval", "exec", "exit", "export", "readonly", "return", "set", "shift", "times", "trap", "unset"}
+NAMES  == {"a", "f"} \cup SPBUILTIN \cup (RES \ {"!", "{", "}"})     \* spellings that satisfy XBD Name
 EOFT   == "<eof>"
 
 Ok(i)  == [st |-> "ok",  i |-> i]
@@ -152,7 +153,8 @@ Command(t, i) ==
                 THEN \* after a prefix reserved words are ordinary words
                      IF p.n = 0 /\ w \in RES THEN Rej(p.i)
                      ELSE IF p.n = 0 /\ w \in NAMES /\ Peek(t, p.i + 1) = "("
-                     THEN \* function definition
+                     THEN \* function definition; the name of a special built-in utility cannot be a function name
+                          IF w \in SPBUILTIN THEN Rej(p.i) ELSE
                           Bind(Expect(t, p.i + 2, ")"), LAMBDA j :
                             LET b == Linebreak(t, j) y == Peek(t, b) IN
                             IF y = EOFT THEN Inc
